@@ -24,6 +24,9 @@ def contract(expression: Expression) -> Expression:
         isinstance(expression, Fraction)
         and isinstance(expression.numerator, Probability)
         and isinstance(expression.denominator, Probability)
+        and type(expression.numerator) is type(expression.denominator)
+        and getattr(expression.numerator, "population", None)
+        == getattr(expression.denominator, "population", None)
         and not expression.numerator.parents
         and not expression.denominator.parents
         and set(expression.denominator.children).issubset(expression.numerator.children)
